@@ -641,6 +641,10 @@ func envInt(name string, def int) int {
 type knownFinding struct {
 	Property string `json:"property"`
 	Class    string `json:"class"`
+	// ClassSuffix: the finding covers every class of the property that ends with this suffix. The workloads append
+	// such suffixes from facts of the failing input (e.g. " partial-fanout": the run's fan-out is smaller than the
+	// cluster), so the finding is tied to that input, not to a symptom.
+	ClassSuffix string `json:"class_suffix,omitempty"`
 	What     string `json:"what"`
 	Since    string `json:"since,omitempty"`
 }
@@ -762,12 +766,17 @@ func cmdCheck(prop string, args []string) int {
 		fl := total.byClass[c]
 		var kf *knownFinding
 		for i := range known.Findings {
-			if known.Findings[i].Property == prop && known.Findings[i].Class == c {
-				kf = &known.Findings[i]
+			f := &known.Findings[i]
+			if f.Property == prop && ((f.Class != "" && f.Class == c) || (f.ClassSuffix != "" && strings.HasSuffix(c, f.ClassSuffix))) {
+				kf = f
+				c2 := f.Class
+				if c2 == "" {
+					c2 = "*" + f.ClassSuffix
+				}
+				knownHit[c2] += fl.count
 			}
 		}
 		if kf != nil {
-			knownHit[c] = fl.count
 			continue
 		}
 		newViol++
@@ -787,10 +796,14 @@ func cmdCheck(prop string, args []string) int {
 		if kf.Property != prop {
 			continue
 		}
-		if n, ok := knownHit[kf.Class]; ok {
-			lines = append(lines, fmt.Sprintf("KNOWN-FINDING: property=%s %s [class %q; reproduced in %d of %d runs of this batch]", prop, kf.What, kf.Class, n, total.runs))
+		key := kf.Class
+		if key == "" {
+			key = "*" + kf.ClassSuffix
+		}
+		if n, ok := knownHit[key]; ok {
+			lines = append(lines, fmt.Sprintf("KNOWN-FINDING: property=%s %s [class %q; reproduced in %d of %d runs of this batch]", prop, kf.What, key, n, total.runs))
 		} else {
-			lines = append(lines, fmt.Sprintf("KNOWN-FINDING: property=%s %s [class %q; listed in known_findings.json, not reproduced by this batch's seeds]", prop, kf.What, kf.Class))
+			lines = append(lines, fmt.Sprintf("KNOWN-FINDING: property=%s %s [class %q; listed in known_findings.json, not reproduced by this batch's seeds]", prop, kf.What, key))
 		}
 	}
 	if len(total.undecided) > 0 && exit == 0 {
